@@ -1,3 +1,3 @@
 SPECIFICATION TSpec
-CONSTANT Deviations = {"C08-solid-ignores-kernel-gain"}
+CONSTANT Deviations = {}
 POSTCONDITION TraceAccepted
